@@ -27,7 +27,7 @@ func gen(g *vh.Gen) {
 	// error storms: many faulty lines on one connection, then an ordinary transaction
 	for i := 0; i < g.N(4, 80); i++ {
 		c, pool := smtpd.GenCfg(g, smtpd.Opts{})
-		stream := smtpd.GenErrorStorm(g, &c, pool, g.Pick2(9, 19, 20, 21, 40, 101))
+		stream := smtpd.GenErrorStorm(g, &c, pool, []int{101, 21, 40, 300, 9, 19, 20, 64, 1000}[i%9])
 		g.Emit("smtp", append(c.Fields(), vh.H(stream))...)
 	}
 	// every byte cut of valid dialogues
